@@ -68,11 +68,16 @@ class Faults:
         i = self.count
         self.count += 1
         self.log.append(name)
+        if getattr(self, 'sticky', None) == name:
+            raise OSError(5, f'injected persistent failure at {name}')
         if self.fault_at is not None and i == self.fault_at:
             self.fault_at = None    # one fault per run
             if self.kind == 'crash':
                 self.dead = True
                 raise Crash(name)
+            if self.kind == 'error-sticky':
+                self.sticky = name      # the condition lasts (I/O error of the medium, access rights): every later operation of
+                #                         this kind fails too, until the harness heals it
             raise OSError(28, f'injected failure at {name}')
 
     def install(self):
@@ -394,7 +399,9 @@ def _check_module(ctx, case, workdir):
             ctx.ok(f'reload-{what}')
     # ---- (1)/(2) every fault point x {crash, error}
     for idx in range(nops):
-        for kind in ('crash', 'error'):
+        for kind in ('crash', 'error', 'error-sticky'):
+            if kind == 'error-sticky' and (idx >= len(oplog) or oplog[idx] not in ('rename', 'replace')):
+                continue
             ctx.ev()
             clean(workdir)
             f = Faults(os.path.join(workdir, 'persistent'))
@@ -489,6 +496,11 @@ def _check_module(ctx, case, workdir):
                     continue
                 if disk[0] == 'bad':
                     ctx.finding(f'error:partial-file:{opname}', sub, repr(disk))
+                elif disk[0] == 'absent' and any(st_[0] == 'ok' for st_ in states):
+                    # a failing save leaves the previous snapshot in place - it does not take the file away
+                    ctx.finding(f'error:file-lost:{opname}' + (':persistent-failure' if kind == 'error-sticky' else ''), sub,
+                                f'after the failure at op {idx} ({opname}) there is no file any more; before: {[st_[0] for st_ in states]!r}')
+                    continue
                 # a save that failed is attempted again by the next save
                 try:
                     mm.saveParameters()
